@@ -75,8 +75,7 @@ def triage_tb3(repo, res):
 
 def token_wsc_rule(repo, res):
     """WSC: Token.is_WSC is true for comments and white space: it returns True
-    on the is_comment() and is_space() branches; Token.is_comment tests
-    startswith(pair[0]) and endswith(pair[1]) for the grammar's pairs."""
+    on the is_comment() and is_space() branches."""
     fn = repo.method("Token", "is_WSC")
     src_calls = {n.func.attr for n in ast.walk(fn) if isinstance(n, ast.Call) and isinstance(n.func, ast.Attribute)}
     for need in ("is_comment", "is_space"):
@@ -96,21 +95,4 @@ def token_wsc_rule(repo, res):
                             f"Token.is_WSC no longer returns True for tokens that satisfy {need}(): the parser's skip "
                             "helpers stop discarding them and they are taken for significant tokens",
                             where=f"pvl/token.py:{fn.lineno}"))
-    fc = repo.method("Token", "is_comment")
-    ok = False
-    for n in ast.walk(fc):
-        # `return any(self.startswith(pair[0]) and self.endswith(pair[1]) for pair in self.grammar.comments)`
-        if isinstance(n, ast.Call) and isinstance(n.func, ast.Name) and n.func.id == "any" and n.args and \
-                isinstance(n.args[0], ast.GeneratorExp) and isinstance(n.args[0].elt, ast.BoolOp) and isinstance(n.args[0].elt.op, ast.And):
-            attrs = {c.func.attr for c in ast.walk(n.args[0].elt) if isinstance(c, ast.Call) and isinstance(c.func, ast.Attribute)}
-            if {"startswith", "endswith"} <= attrs and "comments" in norm(n.args[0].generators[0].iter):
-                ok = True
-        if isinstance(n, ast.If):
-            attrs = {c.func.attr for c in ast.walk(n.test) if isinstance(c, ast.Call) and isinstance(c.func, ast.Attribute)}
-            if {"startswith", "endswith"} <= attrs and isinstance(n.test, ast.BoolOp) and isinstance(n.test.op, ast.And):
-                ok = any(isinstance(b, ast.Return) and isinstance(b.value, ast.Constant) and b.value.value is True for b in n.body)
-    res.oblige("WSC", "Token.is_comment: startswith(opener) and endswith(closer) over grammar.comments", ok=ok)
-    if not ok:
-        res.add(Finding("WSC", "Token.is_comment", "pair test",
-                        "Token.is_comment no longer tests startswith(pair[0]) and endswith(pair[1]) for each pair of "
-                        "grammar.comments", where=f"pvl/token.py:{fc.lineno}"))
+    # (the language of is_comment / is_space against the grammar tables is rule WSC-LANG, vsa.langrules)
